@@ -152,7 +152,8 @@ def run(ctx):
         ctx.check(bool(ok), "R16.3", f, "scalar-is-std-hash:" + t, "hash(%s) returns %s instead of std::hash<T>()(t): values that compare equal (e.g. +0.0 and -0.0) need not hash equal any more" % (t, fmt(r)), f)
     if scp is not None:
         body = [fmt(e["expr"]) for _, _, e in scp.roots()]
-        ctx.check(len(body) == 1 and body[0] in ("return ?(t)", "return hash{}(t)") , "R16.3", scp, "scalar-pattern-single-delegation", "the scalar overload's body is %s" % body, scp)
+        pn0 = scp.params[0]["name"] if scp.params else "t"
+        ctx.check(len(body) == 1 and body[0] in ("return ?(%s)" % pn0, "return hash{}(%s)" % pn0), "R16.3", scp, "scalar-pattern-single-delegation", "the scalar overload's body is %s" % body, scp)
     # every overload with this signature family is a known one: any extra hash overload for arithmetic types is suspicious
     known = 0
     for f in hp:
